@@ -399,6 +399,74 @@ def make_trace_hdd(tid, rng, nops=30, **opt):
         shutil.rmtree(work, ignore_errors=True)
 
 
+def big_extents(ctx, rng):
+    """Extents of 34-44 MiB behind one descriptor (raw and hosted sparse), read with single requests that take more than 32 MiB
+    from one extent and run on into the next; extent file names in decomposed (NFD) unicode next to a composed look-alike."""
+    import unicodedata
+    from dissect.hypervisor.disk.vmdk import VMDK
+    d = tempfile.mkdtemp(prefix="verif-c10big-")
+    try:
+        sizes = [rng.randrange(34, 45) << 20 for _ in range(3)]
+        kinds = ["FLAT", "SPARSE", rng.choice(["FLAT", "VMFS"])]
+        lines, parts = [], []
+        for i, (sz, kind) in enumerate(zip(sizes, kinds)):
+            nfd = unicodedata.normalize("NFD", f"dïsk é{i}")     # "i" + U+0308, "e" + U+0301: the name as a macOS host stores it
+            name = f"{nfd}-{'flat' if kind != 'SPARSE' else 's001'}.vmdk"
+            if kind == "SPARSE":
+                ng = sz // (128 * 512)
+                pos = list(range(1, ng + 1))
+                rng.shuffle(pos)
+                ents = [("D", pos[c]) if c % 7 else ("Z", 0) for c in range(ng)]
+                vf, info = enc_vmdk.build_hosted(ents, [True] * (-(-ng // 512)), capacity=ng * 128, grain=128, gtes=512, file_id=i, max_pos=ng + 1)
+                parts.append(("sparse", ents, info["data_base"], i))
+            else:
+                vf = VirtualFile(sz, [(0, sz, "pat", i)], fid=i)
+                parts.append(("flat", sz, 0, i))
+            vf.materialise(os.path.join(d, name))
+            # the composed spelling of the same name is another file (of another disk)
+            with open(os.path.join(d, unicodedata.normalize("NFC", name)), "wb") as f:
+                f.write(b"not this one" * 100)
+            lines.append(f'RW {sz // 512} {kind} "{name}"' + (" 0" if kind == "FLAT" else ""))
+        with open(os.path.join(d, "big.vmdk"), "w", encoding="utf-8") as f:
+            f.write(enc_vmdk.descriptor_text(lines, create_type="custom"))
+
+        def expected(o, n):
+            out, base = [], 0
+            for (kind, a, db, fid), sz in zip(parts, sizes):
+                lo, hi = max(o, base), min(o + n, base + sz)
+                if lo < hi:
+                    if kind == "flat":
+                        out.append(patterns.pat(fid, lo - base, hi - lo))
+                    else:
+                        g0, g1 = (lo - base) // 65536, (hi - base - 1) // 65536
+                        buf = []
+                        for g in range(g0, g1 + 1):
+                            k, p = a[g]
+                            buf.append(patterns.pat(fid, db + p * 65536, 65536) if k == "D" else bytes(65536))
+                        blob = b"".join(buf)
+                        out.append(blob[(lo - base) - g0 * 65536:(lo - base) - g0 * 65536 + hi - lo])
+                base += sz
+            return b"".join(out)
+        total = sum(sizes)
+        v = VMDK(Path(d) / "big.vmdk")
+        reqs = [(0, total), (4096, sizes[0] + sizes[1] - 8192), (sizes[0] - 512, sizes[1] + 1024), (sizes[0] + 65536 * 3 + 512, total - sizes[0] - 65536 * 3 - 512)]
+        for o, n in reqs:
+            ctx.case(key=("big-extents", o, n), nontrivial=True)
+            try:
+                v.seek(o)
+                got = v.read(n)
+            except Exception as e:  # noqa: BLE001
+                ctx.violation({"format": "vmdk-descriptor", "fail": "read-raised", "sub": "big-extents", "exc": type(e).__name__}, {"read": [o, n], "sizes": sizes, "error": repr(e)[:300]})
+                continue
+            want = expected(o, n)
+            if got != want:
+                ctx.violation({"format": "vmdk-descriptor", "fail": "read-mismatch", "sub": "big-extents"}, {"read": [o, n], "sizes": sizes, "kinds": kinds, "diff": disk.first_diff(want, got)})
+        if int(v.size) != total:
+            ctx.violation({"format": "vmdk-descriptor", "fail": "size", "sub": "big-extents"}, {"want": total, "got": int(v.size)})
+    finally:
+        shutil.rmtree(d, ignore_errors=True)
+
+
 def run(ctx):
     thorough = ctx.tier == "thorough"
     rng = random.Random(ctx.seed + 1010)
@@ -416,6 +484,7 @@ def run(ctx):
         sts = rng.sample(sts, min(len(sts), 700))
     direction_A(ctx, sts, "vmdk")
     direction_A(ctx, diskprop.dump_states(ctx, "Extents", "Extents_hdd.cfg"), "hdd")
+    big_extents(ctx, rng)
     diskprop.traces(ctx, "extents", lambda tid, r: (make_trace if tid % 3 else make_trace_hdd)(tid, r, 40 if thorough else 25), 200 if thorough else 32,
                     "TraceDisk", "TraceDisk.cfg", lambda t: {"format": "extents", "n": len(t["exts"])}, label="random extent lists")
 
